@@ -40,7 +40,8 @@ fn main() {
         let mut u = arbitrary::Unstructured::new(&data);
         match rustun_verif::fuzzgen::history_from(&mut u) {
             Ok(h) => {
-                let body = serde_json::json!({"property": args[2], "check": "history", "reason": "libFuzzer artifact (fz_history)", "case": h});
+                let check = if args[2] == "C03" { "client" } else { "history" };
+                let body = serde_json::json!({"property": args[2], "check": check, "reason": "libFuzzer artifact (fz_history)", "case": h});
                 if std::fs::write(&args[4], serde_json::to_string_pretty(&body).unwrap()).is_err() {
                     eprintln!("INCONCLUSIVE: cannot write {}", args[4]);
                     std::process::exit(2);
